@@ -299,13 +299,20 @@ func (s *SpokFile) run(stream iostream.IOStream, runner shell.Runner, force bool
 			// and saved straight away so that it does not depend on what any other task does.
 			// A task that failed keeps whatever it last succeeded on, unless it failed on
 			// those very files (a forced run) in which case it is no longer up to date with them
+			changed := true
 			switch {
 			case hasFiles && result.Ok():
 				cachedState.Set(taskToRun.Name, currentDigest)
 			case hasFiles && cachedDigest == currentDigest:
 				cachedState.Set(taskToRun.Name, "")
+			case !hasFiles && result.Ok() && cachedDigest != "":
+				// Succeeded with none of its dependencies matching a file (e.g. they were all deleted),
+				// so the files it was recorded against are no longer what it last succeeded on
+				cachedState.Set(taskToRun.Name, "")
+			default:
+				changed = false
 			}
-			if hasFiles && (result.Ok() || cachedDigest == currentDigest) {
+			if changed {
 				s.logger.Debug("Updating cached state for task %s", taskToRun.Name)
 				if err := cachedState.Dump(cachePath); err != nil {
 					return nil, err
